@@ -158,6 +158,34 @@ Theorem C10_rollback_bare_errors :
 Proof. exact (conj rollback_bare_errors (conj rollback_bare_first rollback_noconsult_refuted)). Qed.
 Print Assumptions C10_rollback_bare_errors.
 
+(* Module-level residue of a rejected configuration: the queue of auto-generated configuration (extra_conf: the
+   harmonicWalls blocks that the legacy lowerWall/upperWall keywords of a variable append, also when that variable is then
+   rejected).  With the clear() at the start of parse_config: (1) the outcome of a configuration does not depend on
+   what an earlier one left queued (nor on its error flag); (2) a configuration whose first variable is rejected leaves
+   the visible state unchanged and (3) the NEXT configuration then gives exactly the state it gives in a session that
+   never saw the rejected one; (4) after any configuration the next one sees only the object lists.  (5) Without the
+   clear() (seeded change C10_3) a valid configuration gains the bias queued by an earlier, rejected variable. *)
+Theorem C10_rejected_config_leaves_no_residue :
+  (forall cvs bt st p e,
+     parse_config_ext true cvs bt (mkMState (mkLists (l_colvars (ms_lists st)) (l_biases (ms_lists st)) e) p)
+     = parse_config_ext true cvs bt st) /\
+  (forall b r bt st, k_fails (cb_block b) = true ->
+     visible (parse_config_ext true (b :: r) bt st) = visible st /\
+     l_err (ms_lists (parse_config_ext true (b :: r) bt st)) = true) /\
+  (forall b r bt st cvs2 bt2, k_fails (cb_block b) = true ->
+     parse_config_ext true cvs2 bt2 (parse_config_ext true (b :: r) bt st) = parse_config_ext true cvs2 bt2 st) /\
+  (forall cvs bt st cvs2 bt2,
+     parse_config_ext true cvs2 bt2 (parse_config_ext true cvs bt st)
+     = parse_config_ext true cvs2 bt2 (mkMState (ms_lists (parse_config_ext true cvs bt st)) [])) /\
+  (exists b st v,
+     k_fails (cb_block b) = true /\
+     visible (parse_config_ext false [v] [] (parse_config_ext false [b] [] st)) <> visible (parse_config_ext false [v] [] st) /\
+     visible (parse_config_ext true [v] [] (parse_config_ext true [b] [] st)) = visible (parse_config_ext true [v] [] st)).
+Proof.
+  exact (conj pending_irrelevant (conj rejected_first_visible (conj rejected_then_next (conj after_any_config pending_noclear_refuted)))).
+Qed.
+Print Assumptions C10_rejected_config_leaves_no_residue.
+
 (* What the code did BEFORE the repairs (fix: commits in /repo), kept as witnesses; the check reports a violation if
    the tree behaves like this again. *)
 Theorem C10_before_repair_refuted :
